@@ -20,7 +20,7 @@ PROPERTY = "C12"
 RULE = (
     "direct: kernels {NUTS,HMC} x all permutations of 2 and 3 keys out of {zeta, alpha, mid} x leaf "
     "shape assignments from {(),(2,),(2,2)} x {diag,dense} x history layouts {listed, sorted, reversed, "
-    "with foreign key} x epoch {SLOW, FAST}; engine: kernels x key orders x {diag,dense} x {alone, with RW "
+    "with foreign key} x epoch {SLOW, FAST}, plus histories in which one / every coordinate is constant (variance exactly 0); engine: kernels x key orders x {diag,dense} x {alone, with RW "
     "co-kernel, with second HMC co-kernel} x slow epochs {1, 2 identical, 2 different} x warm-up thinning "
     "{1,2}. Distinct outcome = (part, kernel, key order sorted?, diag, layout/co-kernel, epoch kind)."
 )
@@ -55,6 +55,9 @@ def units(tier, seed):
                         cases.append({"keys": list(perm), "shapes": [list(s) for s in shp]})
                     if n == 2:
                         cases.append({"keys": list(perm), "shapes": [list(s) for s in shape_sets[0]], "offset": True})
+                        # a chain that did not move in some / all coordinates during the epoch: variance exactly 0
+                        cases.append({"keys": list(perm), "shapes": [list(s) for s in shape_sets[0]], "stuck": "one"})
+                        cases.append({"keys": list(perm), "shapes": [list(s) for s in shape_sets[1]], "stuck": "all"})
             us.append({"part": "direct", "kernel": kern, "diag": diag, "cases": cases})
     # engine
     cfgs = []
@@ -90,7 +93,7 @@ def units(tier, seed):
 # ---------------------------------------------------------------------------------
 
 
-def synth_history(keys, shapes, T=7, offset=False):
+def synth_history(keys, shapes, T=7, offset=False, stuck=None):
     """Deterministic history with pairwise distinct variances and non-zero covariances."""
     import numpy as np
 
@@ -104,6 +107,8 @@ def synth_history(keys, shapes, T=7, offset=False):
             col = (0.4 + 0.3 * j) * np.sin(0.9 * (j + 1) * t + 0.3 * j) + 0.2 * np.cos(0.5 * t) + 0.05 * j * t
             if offset and j % 2 == 0:
                 col = 2000.0 + 0.25 * col  # far from zero relative to its spread
+            if (stuck == "one" and j == 1) or (stuck == "all" and k != "other"):
+                col = np.full(T, 0.75 - 0.5 * j)  # exactly representable constant: sample variance is exactly 0
             cols.append(col)
             j += 1
         hist[k] = np.stack(cols, axis=1).reshape((T,) + tuple(shp)).astype(np.float32)
@@ -167,7 +172,7 @@ def run_direct(res, unit):
     kern, diag = unit["kernel"], unit["diag"]
     for case in unit["cases"]:
         keys, shapes = case["keys"], [tuple(s) for s in case["shapes"]]
-        hist = synth_history(keys + ["other"], shapes + [()], offset=bool(case.get("offset")))
+        hist = synth_history(keys + ["other"], shapes + [()], offset=bool(case.get("offset")), stuck=case.get("stuck"))
         own = {k: hist[k] for k in keys}
         order = flat_order(keys, shapes)
         d = len(order)
@@ -195,7 +200,7 @@ def run_direct(res, unit):
                 res.transitions += 1
                 srt = keys == sorted(keys)
                 res.outcome("direct", kern, "sorted" if srt else "unsorted", diag, lname, etype.name)
-                cname = {"kernel": kern, "diag": diag, "keys": keys, "shapes": case["shapes"], "layout": lname, "epoch": etype.name}
+                cname = {"kernel": kern, "diag": diag, "keys": keys, "shapes": case["shapes"], "layout": lname, "epoch": etype.name, "stuck": case.get("stuck")}
                 if etype == EpochType.FAST_ADAPTATION:
                     if got.shape != old.shape or not np.array_equal(got, old):
                         res.violation("direct", f"fast-epoch-changes-mm-{kern}", cname, f"inverse mass matrix changed by tuning in a FAST epoch ({cname})")
